@@ -25,7 +25,7 @@ PID = "C15"
 THEOREMS = ["copy_reads_equal", "copy_root_reads_equal", "mv_reads_equal_plain", "copy_frame", "copy_frame_new", "mv_frame",
             "mv_source_gone_partial", "mv_source_gone_spec", "mv_source_gone_current_false", "d4_counterexample",
             "mv_cross_eq_cp", "mv_cross_file_keeps_source", "list_exact", "d5_counterexample", "isCooler_total",
-            "copy_overwrite_eq", "mv_reads_equal", "mv_through_source_counterexample", "copy_into_itself_refused",
+            "copy_overwrite_eq", "mv_reads_equal", "mv_through_source_counterexample", "copy_into_itself_refused", "create_at_untraversable_refused",
             "copyOp_not_into_itself", "uri_slash", "uri_slash_string", "list_exact_soft", "listing_exact_soft", "step_sat", "run_sat", "history_invariants",
             "stable_of_targets", "stable_history", "list_exact_soft_history", "depth_exceeded_witness",
             "create_append_frame", "create_root_append_frame", "create_w_replaces", "create_w_eq", "recreate_replaces",
@@ -87,6 +87,10 @@ ASSUMPTIONS = [
     "through an external link', 'source reaches the destination file through a link' — HDF5 inter-file rules; "
     "(4) 'source is not a group' (a dataset as source)",
     "links inside a collection's payload are not modelled (cooler creates none outside scool files)",
+    "create at a name that is itself a link that cannot be traversed (a cycle of soft links) is refused by h5py "
+    "(RuntimeError 'too many links' from create_group, nothing deleted, nothing changed) — modelled exactly "
+    "(theorem create_at_untraversable_refused) and counted as dest_is_untraversable_link; the property's re-creation "
+    "clause is about a path occupied by a collection",
     "h5py/HDF5 behaviours mirrored as primitives, found by probing: truncating a file that is already open fails "
     "(same-file overwrite: OSError, no effect); H5Ocopy refuses a destination path through a soft link (RuntimeError, "
     "no effect) while creating groups/links through one works; H5Ocopy of a link child copies the target object; the "
@@ -336,6 +340,9 @@ def _applicable(op, vops):
     return out
 
 
+COUNTS = {}          # per-case counters of noteworthy steps, merged into the case's stats
+
+
 class Sess:
     def __init__(self, cls=False):
         self.vops = []       # ops done, each with the variant flags it was modelled under
@@ -422,6 +429,9 @@ class Sess:
         why = self._corner(m)
         if why:
             return ("corner", why)
+        if op["op"] == "create" and m["outcome"] == {"err": "RuntimeError"}:
+            # the target name is a link that cannot be traversed: h5py's create_group refuses, nothing changes
+            COUNTS["dest_is_untraversable_link"] = COUNTS.get("dest_is_untraversable_link", 0) + 1
         cyc = self._cyclic(m)
         impl_out = _do(op)
         impl_obs = _observe(alt, cyc)
@@ -514,6 +524,8 @@ def _alt_of(op, k):
 
 
 def _finish(sess, stats, report_known):
+    for k, v in COUNTS.items():
+        stats[k] = stats.get(k, 0) + v
     if sess:
         devs = sess
         ids = sorted({i for d in devs for i in d["ids"]})
@@ -526,6 +538,7 @@ def _finish(sess, stats, report_known):
 
 def _history(case, cls=False):
     _set_layout(case)
+    COUNTS.clear()
     ops = case["ops"]
     sc = Scratch()
     stats = {"steps": 0}
@@ -558,6 +571,7 @@ def _fan(case, cls=False):
     if "ops" in case:          # a fan case shrunk to the one failing history
         return _history(case, cls)
     _set_layout(case)
+    COUNTS.clear()
     prefix = INITS[case["init"]] + case["prefix"]
     alpha = ALPHABETS[case["alphabet"]]()
     lo, hi = case.get("lo", 0), case.get("hi", len(alpha))
@@ -811,6 +825,10 @@ CORPUS = [
     [_mk_create(FB, "/c", "a", 1), _mk_copy("lns", FB, "/a/b", FB, "/a")],
     [_mk_create(FA, "/a/b", "a", 1), _mk_copy("lns", FA, "/c", FA, "/ab"), _mk_copy("lns", FA, "/ab", FA, "/c"),
      _mk_create(FA, "/a", "a", 2)],
+    # creating at a name that is a link through itself: h5py refuses (RuntimeError), nothing changes; a dangling link
+    # is replaced
+    [_mk_create(FB, "/c", "a", 3), _mk_copy("lns", FB, "/a/b", FB, "/a"), _mk_create(FB, "/a", "a", 31),
+     _mk_copy("lns", FB, "/zz", FB, "/ab"), _mk_create(FB, "/ab", "a", 32)],
     # soft links closing a cycle (the first is created before its target exists): is_cooler answers False
     [_mk_create(FA, "/a", "a", 1), _mk_copy("lns", FA, "/a/b", FA, "/c"), _mk_copy("lns", FA, "/c", FA, "/a/b")],
     [_mk_create(FA, "/a", "a", 1), _mk_copy("lns", FA, "/c", FA, "/ab"), _mk_copy("lns", FA, "/ab", FA, "/c")],
